@@ -7,13 +7,18 @@ import Driver.C17
 import Driver.Utils
 import Driver.C14
 import Driver.C11
+import Driver.Conn
+import Driver.C18
+import Driver.H2Send
+import Driver.Shell
+import Driver.C04
 /-! `hcdriver`: one JSON object per input line (`{"cmd": …, …}`), one JSON object per output line
 (`{"ok": result}` or `{"error": msg}`).  Pure: every answer is computed by the model definitions the
 theorems in `HC/Props` are about. -/
 open Lean Driver
 
 def allHandlers : List (String × Handler) :=
-  Driver.C20.handlers ++ Driver.C19.handlers ++ Driver.Streams.handlers ++ Driver.Proto.handlers ++ Driver.C17.handlers ++ Driver.Utils.handlers ++ Driver.C14.handlers ++ Driver.C11.handlers
+  Driver.C04.handlers ++ Driver.Shell.handlers ++ Driver.C20.handlers ++ Driver.C19.handlers ++ Driver.Streams.handlers ++ Driver.Proto.handlers ++ Driver.C17.handlers ++ Driver.Utils.handlers ++ Driver.C14.handlers ++ Driver.C11.handlers ++ Driver.Conn.handlers ++ Driver.C18.handlers ++ Driver.H2Send.handlers
 
 def handleLine (line : String) : Json :=
   match Json.parse line with
